@@ -119,21 +119,22 @@ func (c *doneCtx) Done() <-chan struct{} {
 }
 
 type netRun struct {
-	book   *routex.Book
-	net    *routex.Net
-	nodes  map[int]*node
-	order  []int
-	ctx    context.Context
-	stop   context.CancelFunc
-	alpha  int
-	maxttl int
-	sent   int // messages ever queued (incl. injected)
-	lost   int
-	deliv  int
-	nfinds int
-	ninj   int
-	seen   int // highest stream sequence number already reported
-	inject []*routex.Sent
+	book        *routex.Book
+	net         *routex.Net
+	nodes       map[int]*node
+	order       []int
+	ctx         context.Context
+	stop        context.CancelFunc
+	alpha       int
+	maxttl      int
+	sent        int // messages ever queued (incl. injected)
+	lost        int
+	deliv       int
+	nfinds      int
+	ninj        int
+	relaySearch int // relay deliveries that started a route search of their own and were given up
+	seen        int // highest stream sequence number already reported
+	inject      []*routex.Sent
 }
 
 // kademlia wants a shed.DB for its peer-metrics collector.  Opening an in-memory one
@@ -504,6 +505,7 @@ func (r *netRun) deliver(s *routex.Sent, m msg, fwd []int, forced bool) kit.Ev {
 		hcancel()
 		<-finished
 		ev["gaveup"] = true
+		r.relaySearch++
 	}
 	hcancel()
 	ev["handled"] = true
@@ -762,6 +764,7 @@ func runNet(sc kit.Scenario, logger logging.Logger) ([]kit.Ev, error) {
 		reached += r.nodes[x].p2p.delivered
 	}
 	end["relays_reached_target"] = reached
+	end["relay_searches"] = r.relaySearch
 	evs = append(evs, end)
 	return evs, nil
 }
